@@ -85,7 +85,9 @@ func c20ValidName(s string) bool {
 }
 
 func c20CheckTree(nodes []Node, depth int) {
-	if depth > 256 {
+	// the parser bounds block nesting by 255 and the depth at which imports are
+	// expanded by another 255
+	if depth > 512 {
 		verifFail("C20.nesting-unbounded")
 	}
 	for _, n := range nodes {
@@ -303,9 +305,34 @@ var c20Concrete = []string{
 	"$(a) = $(a)\ndir $(a) x$(a)\n",
 }
 
+// c20Chain: n snippets, each a tower of `levels` nested blocks with the import
+// of the previous snippet at the bottom; the file imports the last one.
+func c20Chain(n, levels int) string {
+	var b strings.Builder
+	for i := 0; i < n; i++ {
+		fmt.Fprintf(&b, "(s%d) {\n", i)
+		for l := 0; l < levels; l++ {
+			b.WriteString("b {\n")
+		}
+		if i > 0 {
+			fmt.Fprintf(&b, "import s%d\n", i-1)
+		} else {
+			b.WriteString("leaf x\n")
+		}
+		for l := 0; l < levels; l++ {
+			b.WriteString("}\n")
+		}
+		b.WriteString("}\n")
+	}
+	fmt.Fprintf(&b, "import s%d\n", n-1)
+	return b.String()
+}
+
 func harness_C20_concrete() {
-	k := nondetChoice("input", len(c20Concrete))
-	nodes, err := Read(bytes.NewReader([]byte(c20Concrete[k])), "verif.conf")
+	inputs := append([]string{}, c20Concrete...)
+	inputs = append(inputs, c20Chain(2, 100), c20Chain(3, 200), c20Chain(4, 150))
+	k := nondetChoice("input", len(inputs))
+	nodes, err := Read(bytes.NewReader([]byte(inputs[k])), "verif.conf")
 	if err != nil {
 		verifCover("C20.concrete-error")
 		return
